@@ -152,6 +152,22 @@ def isWindowsAbs? (p : Str) : Option Bool :=
       | [] => some false
       | c :: _ => some (isSlash c)
 
+/-- `isWindowsAbs` as a Boolean.  The `none` branch is unreachable: `isWindowsAbs_never_panics` (Props/C12.lean)
+proves that the index-faithful `isWindowsAbs?` never returns `none`. -/
+def isWindowsAbsT (p : Str) : Bool :=
+  match isWindowsAbs? p with
+  | some b => b
+  | none => false
+
+/-- a relative result that a later resolution stage would read as something else than a local path -/
+def ambiguous (j : Str) : Bool := (j.head? = some '~') || isRemoteContext j || isWindowsAbsT j
+
+/-- `relativePathsResolver.join`: `filepath.Join(workingDir, p)`, with a leading `./` kept on a relative result that
+would otherwise be re-read as `~`, a remote context or a Windows-absolute path -/
+def joinWd (wd p : Str) : Str :=
+  let j := join wd p
+  if !isAbs j && ambiguous j then '.' :: '/' :: j else j
+
 /-! ## the resolvers on strings -/
 
 structure Cfg where
@@ -168,7 +184,7 @@ structure Cfg where
 def absPathStr (cfg : Cfg) (s : Str) : Str :=
   let v := expandUser cfg.home s
   if isAbs v then v
-  else if v ≠ [] then join cfg.wd v
+  else if v ≠ [] then joinWd cfg.wd v
   else v
 
 inductive Out (α : Type) where
@@ -195,7 +211,7 @@ def maybeUnixStr (cfg : Cfg) (s : Str) : Out Str :=
   else match isWindowsAbs? p with
     | none => .panic "isWindowsAbs"
     | some true => .ok p
-    | some false => .ok (join cfg.wd p)
+    | some false => .ok (joinWd cfg.wd p)
 
 /-- `absContextPath` on a string -/
 def absContextStr (cfg : Cfg) (s : Str) : Str :=
@@ -229,15 +245,15 @@ def okStr (s : Str) : Out Val := .ok (.str (String.ofList s))
 /-- `maybeUnixPath(a any)` -/
 def maybeUnixPath (cfg : Cfg) : Val → Out Val
   | .str s => (maybeUnixStr cfg s.toList).map (fun r => .str (String.ofList r))
-  | _ => .panic "maybeUnixPath"
+  | _ => .err "unexpectedType"
 
 def absContextPath (cfg : Cfg) : Val → Out Val
   | .str s => okStr (absContextStr cfg s.toList)
-  | _ => .panic "absContextPath"
+  | _ => .err "unexpectedType"
 
 def absExtendsPath (cfg : Cfg) : Val → Out Val
   | .str s => okStr (absExtendsStr cfg s.toList)
-  | _ => .panic "absExtendsPath"
+  | _ => .err "unexpectedType"
 
 def absSymbolicLink (cfg : Cfg) (v : Val) : Out Val :=
   match absPath cfg v with
@@ -255,7 +271,7 @@ def absVolumeMount (cfg : Cfg) : Val → Out Val
       | none => .err "bindNoSource"
       | some (.str s) =>
         (maybeUnixStr cfg s.toList).map (fun r => .map (Val.insert "source" (.str (String.ofList r)) kvs))
-      | some _ => .panic "absVolumeMount"
+      | some _ => .err "unexpectedType"
     | _ => .ok (.map kvs)
   | v => .ok v
 
@@ -266,15 +282,16 @@ def volumeDriverOpts (cfg : Cfg) : Val → Out Val
     | some (.str "local") =>
       match Val.lookup "driver_opts" kvs with
       | none => .ok (.map kvs)
+      | some .null => .ok (.map kvs)
       | some (.map opts) =>
         match Val.lookup "o" opts, Val.lookup "device" opts with
         | some (.str "bind"), some dev =>
           (maybeUnixPath cfg dev).map
             (fun d => .map (Val.insert "driver_opts" (.map (Val.insert "device" d opts)) kvs))
         | _, _ => .ok (.map kvs)
-      | some _ => .panic "volumeDriverOpts"
+      | some _ => .err "unexpectedType"
     | _ => .ok (.map kvs)
-  | _ => .panic "volumeDriverOpts"
+  | _ => .err "unexpectedType"
 
 /-- dispatch on the handler name of a row of `Gen.resolvers` -/
 def applyResolver (cfg : Cfg) (h : String) (v : Val) : Out Val :=
